@@ -47,6 +47,21 @@ def _run_one(args):
             s = s.replace(old, new)
             with open(path, "w", encoding="utf-8") as fh:
                 fh.write(s)
+        if os.environ.get("QV_SELFTEST_ALPHA"):
+            # additionally rename every local variable of the files the rules know (behaviour
+            # preserving): mutants must still be killed, twins must still be silent
+            from . import alpha, refnames
+            for rel in refnames.load_ref():
+                path = os.path.join(tmp, rel)
+                if os.path.exists(path):
+                    with open(path, encoding="utf-8", errors="replace") as fh:
+                        src = fh.read()
+                    try:
+                        new, _, _ = alpha.rename_source(src)
+                    except SyntaxError:
+                        continue
+                    with open(path, "w", encoding="utf-8") as fh:
+                        fh.write(new)
         os.environ["QV_NO_EVIDENCE"] = "1"
         buf = io.StringIO()
         with contextlib.redirect_stdout(buf), contextlib.redirect_stderr(buf):
@@ -74,8 +89,15 @@ def cases_for(pid):
     return mod.CASES
 
 
-def run_for(pid, attach_evidence=False, verbose=True):
+def run_for(pid, attach_evidence=False, verbose=True, alpha=False):
+    """alpha=True: every case is additionally run on a copy in which all local variables of the
+    files known to the rules are renamed; an extra twin consisting of the renaming alone is added."""
     cases = cases_for(pid)
+    if alpha:
+        os.environ["QV_SELFTEST_ALPHA"] = "1"
+        cases = list(cases) + [{"name": "all local variables renamed", "kind": "twin", "edits": []}]
+    else:
+        os.environ.pop("QV_SELFTEST_ALPHA", None)
     if not cases:
         if verbose:
             print("selftest %s: no cases" % pid)
@@ -93,13 +115,15 @@ def run_for(pid, attach_evidence=False, verbose=True):
             print("selftest %s %-7s %-16s %s %s" % (pid, kind, status, name, info[:200]))
         if status in ("SURVIVED", "FALSE-ALARM"):
             bad += 1
-    print("selftest %s: %s in %.1fs" % (pid, json.dumps(summary), time.time() - t0))
+    print("selftest %s%s: %s in %.1fs" % (pid, " (alpha-renamed)" if alpha else "", json.dumps(summary),
+                                          time.time() - t0))
+    os.environ.pop("QV_SELFTEST_ALPHA", None)
     if attach_evidence:
         path = os.path.join(EVID, "%s.json" % pid)
         if os.path.exists(path):
             with open(path) as fh:
                 ev = json.load(fh)
-            ev["coverage"]["selftest"] = {
+            ev["coverage"]["selftest_alpha_renamed" if alpha else "selftest"] = {
                 "mutants_killed": summary["killed"],
                 "mutants_exit2": summary["analysis-error"],
                 "twins_silent": summary["silent"],
@@ -119,6 +143,8 @@ def run_for(pid, attach_evidence=False, verbose=True):
 def main(args):
     pids = args or ["C%02d" % i for i in range(1, 21)]
     rc = 0
+    alpha = "--alpha" in pids
+    pids = [p for p in pids if p != "--alpha"] or ["C%02d" % i for i in range(1, 21)]
     for pid in pids:
-        rc = max(rc, run_for(pid))
+        rc = max(rc, run_for(pid, alpha=alpha))
     return rc
